@@ -1,6 +1,7 @@
 """C33 A failed run never changes the served data (K1 + K3)."""
 from lib.facts import callee_matches, norm
-from lib.rules import edges_from_call, who_calls, k3_field_writers, field_writes, fmt_path
+from lib.rules import edges_from_call, who_calls, k3_field_writers, field_writes, fmt_path, G, arg_path, arg_desc
+from lib.facts import Site
 
 META = dict(
     level='other',
@@ -84,4 +85,52 @@ def rule_fields(ctx):
                       loc=site.loc())
 
 
-RULES = [rule_guard, rule_callers, rule_fields]
+def rule_failure_reported(ctx):
+    """A run in which a task failed must be reported as failed (otherwise process_once installs partial data)."""
+    # (a) run_failed always raises had_err
+    rf = ctx.body('engine::Run::run_failed')
+    stores = [s for s in rf.calls(['AtomicBool::store', 'atomic::Atomic::store']) if 'had_err' in arg_path(s, 0)]
+    ctx.floor('K1', 'had_err.store in run_failed', len(stores), 1)
+    for r in rf.returns():
+        p = rf.path_avoiding(r.bb, avoid_nodes=[s.bb for s in stores])
+        ok = p is None and all(str(arg_desc(s, 1)) == 'const(1)' for s in stores)
+        ctx.check(ok, 'K1', 'run_failed:always-sets-had_err',
+                  'run_failed sets had_err=true on every path',
+                  'run_failed can return without setting had_err=true: a failed task (e.g. a fatal error) is then not '
+                  'reflected in the result of Run::process and the partial result is installed as new served data',
+                  loc=rf.file + ':%d' % rf.line, path=fmt_path(rf, p))
+    # (b) Run::process returns Ok after the workers only on the false edge of had_err.load
+    pb = ctx.body('engine::Run::process')
+    scope = pb.calls('std::thread::scope')
+    ctx.floor('K1', 'thread::scope in Run::process', len(scope), 1)
+    e, sw = G('had_err not set', call=['AtomicBool::load', 'atomic::Atomic::load'], labels={'false'}, recv='had_err').edges(pb)
+    ctx.floor('K1', 'had_err.load switch in Run::process', len(sw), 1)
+    n = 0
+    for site, st in pb.stmts():
+        if st['s'] == 'assign' and st['lhs'] == [0] and st['rv']['r'] == 'agg' and st['rv'].get('variant') == 'Ok':
+            if scope and pb.can_reach(scope[0].bb, site.bb):
+                n += 1
+                p = pb.path_avoiding(site.bb, avoid_edges=e, start=scope[0].bb)
+                ctx.check(p is None, 'K1', 'Run::process:Ok<=!had_err',
+                          'after the worker threads finished, Ok(()) is returned only if had_err is false',
+                          'Run::process can return Ok(()) after the workers although had_err was set', loc=site.loc(), path=fmt_path(pb, p))
+    ctx.floor('K1', 'Ok returns after the worker scope', n, 1)
+    # (c) a worker that stops on a task error has had_err raised
+    ws = [c for c in ctx.closures(pb) if c.calls('engine::Run::process_task')]
+    ctx.floor('K1', 'worker closure', len(ws), 1)
+    for w in ws:
+        fe, fsw = G('task failed', call='engine::Run::process_task', labels={'Err', 'fail'}).edges(w)
+        ctx.floor('K1', 'switch on process_task result', len(fsw), 1)
+        marks = w.calls('engine::Run::run_failed')
+        he, hsw = G('had_err already set', call=['AtomicBool::load', 'atomic::Atomic::load'], labels={'true'}, recv='had_err').edges(w)
+        for (sbb, tb) in fe:
+            for r in w.returns():
+                p = w.path_avoiding(r.bb, avoid_nodes=[m.bb for m in marks], avoid_edges=he, start=tb)
+                ctx.check(p is None, 'K1', 'worker:task-error=>had_err',
+                          'a worker leaving its loop because a task failed has had_err raised (run_failed or already set)',
+                          'a worker can stop on a failed task (Err from process_task, e.g. an I/O error while loading or '
+                          'storing a trust anchor in process_tal_task) without had_err being set: Run::process then returns '
+                          'Ok and the partial report replaces the served data', loc=Site(w, sbb).loc(), path=fmt_path(w, p))
+
+
+RULES = [rule_guard, rule_callers, rule_fields, rule_failure_reported]
